@@ -2,12 +2,37 @@
 From Coq.Strings Require Import Byte String.
 From Coq Require Import List NArith Bool.
 Import ListNotations.
-From V Require Import lib.Bytes model.Url spec.Whatwg.
+From V Require Import lib.Bytes model.Url model.Escape spec.Whatwg spec.HtmlTok spec.HtmlRefs spec.HtmlEntities spec.UrlSink.
 Require Extraction.
 Require Import ExtrOcamlBasic.
 
 Definition is (f : bytes) (s : string) : bool := bytes_eqb f (bs s).
 Definition arg (n : nat) (a : list bytes) : bytes := nth n a [].
+
+(* ---- the rendered document, read as a browser reads it ---- *)
+(* first start tag named elem that carries attribute attr: its raw value *)
+Fixpoint find_attr (elem attr : bytes) (ts : list token) : option bytes :=
+  match ts with
+  | [] => None
+  | TStart n a _ :: r =>
+      if bytes_eqb n elem then match attr_value attr a with Some v => Some v | None => find_attr elem attr r end
+      else find_attr elem attr r
+  | _ :: r => find_attr elem attr r
+  end.
+(* structure signature: every token except attribute VALUES (tags, attribute names, text, comments) *)
+Fixpoint tsig (ts : list token) : bytes :=
+  match ts with
+  | [] => []
+  | TChar b :: r => b :: tsig r
+  | TStart n a sc :: r => [x00; x3c] ++ n ++ flat_map (fun kv => x00 :: fst kv) a ++ (if sc then [x2f] else []) ++ [x00; x3e] ++ tsig r
+  | TEnd n :: r => [x00; x3c; x2f] ++ n ++ [x00; x3e] ++ tsig r
+  | TComment d :: r => [x00; x21] ++ d ++ [x00; x3e] ++ tsig r
+  | TDoctype d :: r => [x00; x44] ++ d ++ [x00; x3e] ++ tsig r
+  end.
+Definition scheme_reply (d : bytes) : bytes :=
+  match browser_scheme d with None => [x2d] | Some sc => x3a :: sc end.
+Fixpoint flat_pairs (l : list (bytes * bytes)) : list bytes :=
+  match l with [] => [] | (a, b) :: r => a :: b :: flat_pairs r end.
 
 Definition dispatch (f : bytes) (a : list bytes) : list bytes :=
   if is f "url" then [url (arg 0 a)]
@@ -20,6 +45,20 @@ Definition dispatch (f : bytes) (a : list bytes) : list bytes :=
     (* args: input, implementation output.  reply: model output; does the property predicate hold of the implementation's output? *)
     let s := arg 0 a in let o := arg 1 a in
     [url s; b2 (bytes_eqb o failed || (bytes_eqb o s && safeb s))]
+  else if is f "rendered" then
+    (* args: input s, the document the implementation rendered, element name, attribute name.
+       reply: found?; raw attribute value as tokenized; its decoded form d (what the URL parser receives);
+              the END-TO-END specification predicate rendered_okb s d; the model's raw value escape (url s);
+              the scheme a browser extracts from d ("-" none, ":"scheme); the structure signature of the document;
+              the scheme half of the predicate alone: d is the failure URL or safeb d *)
+    let s := arg 0 a in let ts := tok (arg 1 a) in
+    match find_attr (arg 2 a) (arg 3 a) ts with
+    | Some raw => let d := decode_attr raw in
+                  [[x31]; raw; d; b2 (rendered_okb s d); escape (url s); scheme_reply d; tsig ts; b2 (bytes_eqb d failure_url || safeb d)]
+    | None => [[x30]; []; []; [x30]; escape (url s); [x2d]; tsig ts; [x30]]
+    end
+  else if is f "decode_attr" then [decode_attr (arg 0 a)]
+  else if is f "entities" then flat_pairs html5_entities
   else [bs "?"].
 
 Extraction "model.ml" dispatch.
